@@ -392,6 +392,61 @@ fn big_cases(seed: u64) -> Vec<Case> {
     v
 }
 
+/// Long common head and/or tail (64..200 items) around short middles in which items of the head or tail are
+/// repeated ("echoes": they occur once in each middle, so they are unique INSIDE the middle but not in the whole
+/// range) next to items that really are unique on both sides and cross them. Whether an item may anchor a
+/// Patience diff is decided over the WHOLE range (C15); a search restricted to the middle picks echoes.
+fn echo_cases(seed: u64, count: usize) -> Vec<Case> {
+    let mut v = vec![];
+    for i in 0..count {
+        let mut rng = Rng::new(seed ^ 0xec40 ^ (i as u64).wrapping_mul(0x9E3779B97F4A7C15));
+        let h = if i % 3 == 2 { 0 } else { rng.range(64, 200) };
+        let t = if i % 3 == 0 { 0 } else { rng.range(64, 130) };
+        let head: Vec<u32> = (0..h as u32).map(|x| 1000 + x).collect();
+        let tail: Vec<u32> = (0..t as u32).map(|x| 5000 + x).collect();
+        let pool: Vec<u32> = head.iter().chain(tail.iter()).copied().collect();
+        let k = rng.range(1, 5);
+        let mut mid: Vec<u32> = (0..k).map(|_| pool[rng.below(pool.len())]).collect();
+        mid.sort();
+        mid.dedup();
+        let u = rng.range(1, 3);
+        let fresh: Vec<u32> = (0..u as u32).map(|x| 9000 + x).collect();
+        let mut old_mid: Vec<u32> = mid.iter().chain(fresh.iter()).copied().collect();
+        for _ in 0..rng.below(3) {
+            old_mid.push(7); // a repeated filler
+        }
+        let shuffle = |rng: &mut Rng, v: &mut Vec<u32>| {
+            for a in (1..v.len()).rev() {
+                let b = rng.below(a + 1);
+                v.swap(a, b);
+            }
+        };
+        let mut new_mid = old_mid.clone();
+        shuffle(&mut rng, &mut old_mid);
+        shuffle(&mut rng, &mut new_mid);
+        if i % 4 == 1 {
+            // the canonical shape: echoes in order, the unique items moved across them
+            old_mid = mid.iter().chain(fresh.iter()).copied().collect();
+            new_mid = fresh.iter().chain(mid.iter()).copied().collect();
+        }
+        let old: Vec<u32> = head.iter().chain(old_mid.iter()).chain(tail.iter()).copied().collect();
+        let new: Vec<u32> = head.iter().chain(new_mid.iter()).chain(tail.iter()).copied().collect();
+        let alg = if i % 5 == 4 { Algorithm::Myers } else { Algorithm::Patience };
+        let mut c = Case::full(alg, &old, &new);
+        if i % 6 == 3 {
+            // differing, non-zero sub-range starts through offset lookups
+            c.o_off = 3;
+            c.n_off = 11;
+            c.os += 3;
+            c.oe += 3;
+            c.ns += 11;
+            c.ne += 11;
+        }
+        v.push(c);
+    }
+    v
+}
+
 pub fn suite_raw(ctx: &mut Ctx) {
     let (kf, lf, ks, ls, nrand, maxsz) = match ctx.tier {
         Tier::Quick => (3, 4, 2, 3, 3000, 60),
@@ -422,6 +477,14 @@ pub fn suite_raw(ctx: &mut Ctx) {
         let (req, out) = emit_case(ctx, &c);
         check_raw(ctx, &c, &out, &req);
         ctx.count("raw.big_cases");
+    }
+    for c in echo_cases(ctx.seed, if ctx.tier == Tier::Quick { 60 } else { 1200 }) {
+        if !ctx.take() {
+            continue;
+        }
+        let (req, out) = emit_case(ctx, &c);
+        check_raw(ctx, &c, &out, &req);
+        ctx.count("raw.echo_cases");
     }
 }
 
@@ -612,6 +675,16 @@ pub fn suite_cap(ctx: &mut Ctx) {
         ctx.emit(&req, &cap.show());
         check_cap(ctx, &c, &cap, &req);
         ctx.count("cap.big_cases");
+    }
+    for c in echo_cases(ctx.seed ^ 0x77, if ctx.tier == Tier::Quick { 60 } else { 1200 }) {
+        if !ctx.take() {
+            continue;
+        }
+        let req = capture_request(&c);
+        let cap = run_capture(&c);
+        ctx.emit(&req, &cap.show());
+        check_cap(ctx, &c, &cap, &req);
+        ctx.count("cap.echo_cases");
     }
     // one Myers call whose ranges are more than 8192 edits apart (implementation only: the validators
     // decide, the model is not run at this size)
